@@ -67,6 +67,9 @@ class UpdateExtractor(BaseExtractor):
                     holder.add_read(read_table)
 
         for tgt_col in columns:
+            if not holder.write:
+                # target table not identified (e.g. dialect specific syntax): no column lineage to report
+                break
             tgt_col.parent = list(holder.write)[0]
             for src_col in tgt_col.to_source_columns(
                 holder.get_alias_mapping_from_table_group(list(holder.read))
